@@ -312,3 +312,6 @@ def decide_inconclusive(obs, results, cases):
     if obs.get('vt_partial_timer', 0) == 0 or obs.get('lone_requests', 0) == 0:
         return 'virtual-time monitor saw no timer-released batch / no lone request was issued'
     return None
+
+
+RULE = RULE + '; servers whose upstream stage batches too (two batching workers on different queues)'
